@@ -205,6 +205,10 @@ def run(ctx: common.Ctx):
     if not ctx.thorough:
         fam_specs = fam_specs[::2]
     tasks += [{"seed": 0, "index": sp["index"], "profile": sp["profile"], "spec": sp} for sp in fam_specs]
+    # traced calls around communication: the partitioner must refuse explicitly, on all ranks alike
+    # (the asymmetric variants — a call on one rank only — run in the thorough tier)
+    tasks += [{"seed": 0, "index": sp["index"], "profile": sp["profile"], "spec": sp}
+              for sp in G.call_family() if ctx.thorough or sp["family"]["symmetric"]]
     try:
         results = distwork.run_pool(distwork.c09_unit, tasks, deadline_s=2400 if ctx.thorough else 500)
     except distwork.WorkTimeout as e:
@@ -229,12 +233,34 @@ def run(ctx: common.Ctx):
                 dist[f"has:{k}"] += 1
         prog = {"seed": t["seed"], "index": t["index"], "profile": t["profile"]}
         replay = {"program": prog, "spec": t.get("spec") or G.generate(t["seed"], t["index"], t["profile"])}
+        spec_t = t.get("spec") or {}
+        if res.get("rejected") and spec_t.get("expects_refusal"):
+            rf = res["ranks_find"]
+            want = spec_t["expects_refusal"]
+            if all(x["status"] == "raised" and x["exc"] == want for x in rf):
+                dist["refused-explicitly-on-all-ranks"] += 1
+            elif any(x["status"] == "raised" for x in rf) and any(x["status"] == "blocked" for x in rf):
+                exc = [x["exc"] for x in rf if x["status"] == "raised"][0]
+                ctx.violation(f"partition:rank-raises-others-block:{exc}:unsupported-function-call",
+                              f"{prog}: a rank refuses the program ({exc}) before the first collective while the "
+                              f"other ranks wait in it forever: {json.dumps(rf)}", dict(replay, ranks=rf))
+            else:
+                ctx.violation("partition:refusal-not-explicit",
+                              f"{prog}: expected {want} on every rank, got {json.dumps(rf)}", dict(replay, ranks=rf))
+            continue
         if res.get("rejected"):
             dist["rejected"] += 1
             from .c08 import reject_signature
             sig = reject_signature(res["ranks_find"], pat)
             ctx.violation(sig, "find_distributed_partition returns no partition for a valid program: "
                           + json.dumps(res["ranks_find"]), dict(replay, ranks=res["ranks_find"]))
+            rf_ = res["ranks_find"]
+            if not sig.endswith("payload-through-send-holder") and any(x["status"] == "raised" for x in rf_) \
+                    and any(x["status"] == "blocked" for x in rf_):
+                exc_ = [x["exc"] for x in rf_ if x["status"] == "raised"][0]
+                ctx.violation(f"partition:rank-raises-others-block:{exc_}",
+                              f"{prog}: a rank raises {exc_} while the other ranks block in a collective (real MPI: "
+                              f"they hang): {json.dumps(rf_)}", dict(replay, ranks=rf_))
             if not sig.endswith("payload-through-send-holder"):
                 # the Lean model partitions every valid program (partition_wf): model != real
                 raised = [r for r in res["ranks_find"] if r["status"] == "raised"] or [{"exc": "?"}]
